@@ -26,6 +26,7 @@ from datetime import timedelta
 from typing import Any
 
 from hv.clock import patched_time
+from hv.gen import argnames
 from hv.loop import VClock, run_virtual
 from hv.record import Recorder
 
@@ -251,7 +252,15 @@ def random_case(rng: random.Random) -> dict[str, Any]:
     return case
 
 
+def argname_wrappers() -> dict[str, tuple[Any, bool, bool]]:
+    from haiway import throttle
+
+    return {"throttle": (throttle, True, False), "throttle-limit": (throttle(limit=100, period=0.001), True, False)}
+
+
 def run(R: Recorder, tier: str, seed: int, shard: int, nshards: int) -> None:
+    if shard == 0:
+        argnames.check(R, "arguments", argname_wrappers())
     R.flags["exhaustive_core"] = "all gap patterns of <= 5 calls over {0,1/4,1/2,1,5/4,2} periods x limits 1-4 x period forms"
     for i, case in enumerate(exhaustive(tier)):
         if i % nshards == shard:
@@ -262,4 +271,7 @@ def run(R: Recorder, tier: str, seed: int, shard: int, nshards: int) -> None:
 
 
 def replay(R: Recorder, case: dict[str, Any]) -> None:
+    if "argnames" in case:
+        argnames.check(R, "arguments", argname_wrappers(), only=case["argnames"])
+        return
     run_case(R, case, verbose=True)
